@@ -9,7 +9,8 @@ I(n) == IntV(FromInt(n))
 U(n) == UintV(FromInt(n))
 S(s) == Str(s)
 LI(s) == List([j \in 1..Len(s) |-> I(s[j])])
-IntLists == { LI(<<>>), LI(<<1>>), LI(<<1, 2>>), LI(<<2, 1, 2>>), LI(<<0, 1, 2, 3>>), LI(<<3, 3>>), LI(<<-1, 0>>) }
+IntLists == { LI(<<>>), LI(<<1>>), LI(<<1, 2>>), LI(<<2, 1, 2>>), LI(<<0, 1, 2, 3>>), LI(<<3, 3>>), LI(<<-1, 0>>),
+              LI(<<1, 1, 0>>), LI(<<2, 2, 0, 2>>) }       \* a failing element AFTER the loop could have decided: no early exit may hide it
 OtherLists == { List(<<S(<<97>>), S(<<98>>)>>), List(<<U(1), U(2)>>), List(<<Bool(TRUE), Bool(FALSE)>>),
                 List(<<LI(<<1>>), LI(<<2, 3>>)>>), List(<<S(<<>>)>>) }
 Lists == IntLists \cup OtherLists
